@@ -757,6 +757,9 @@ class Engine:
                 return z3.BoolVal(False)
         if isinstance(a, PyConst) and isinstance(b, PyConst):
             return z3.BoolVal(a.val is b.val)
+        if isinstance(a, PyConst) != isinstance(b, PyConst):
+            # a symbolic value / heap object is never a module-level python object
+            return z3.BoolVal(False)
         raise Unsupported("identity comparison")
 
     def equal(self, st, a, b):
@@ -961,6 +964,16 @@ class Engine:
                 if isinstance(val, int):
                     return Ty.mk_int(val)
                 return PyConst(val)
+            if isinstance(bv.val, str) and isinstance(idx, V) and isinstance(idx.t, Ty._Int) and len(bv.val) <= 256:
+                # constant string indexed by a symbolic position: a character is
+                # modelled by its code point
+                i = idx.term
+                if not self.spec_mode:
+                    self.oblige(st, z3.And(0 <= i, i < len(bv.val)), f"string index in range at line {self.line(node)}", "safety", node)
+                arr = z3.K(Ty.IntS, z3.IntVal(-1))
+                for p, ch in enumerate(bv.val):
+                    arr = z3.Store(arr, p, ord(ch))
+                return V(Key, [z3.Select(arr, i)])
             raise Unsupported("symbolic index into python constant")
         t = bv.t
         if isinstance(t, Ty.SDict):
